@@ -317,23 +317,22 @@ def flag_changes(before, after):
   return out
 
 
-FLAG_WITNESS_HEAD = [
-    'def W(v):',
-    '  o = [v] + [v.sym_init_args] * isinstance(v, pg.Object)',
-    '  for c in v.sym_values(): o += W(c) if isinstance(c, pg.Symbolic) else []',
-    '  return o',
-    'F = lambda v: (v.is_sealed, v.accessor_writable)',
-    'keep = W(root); b = [*map(F, keep)]']
-
-
-def flag_witness(tree, setup_lines, sealed_stack, acc_stack, addr, src):
+def flag_witness(tree, setup_lines, sealed_stack, acc_stack, addr, src, bad):
+  """Witness for one flipped flag `bad` = (path keys before, flag, old, new) of
+  a node that is still in the tree after the operation."""
+  keys, flag = bad[0], bad[1]
+  via = ''
+  if keys and keys[-1] == '<attrs>':
+    keys, via = keys[:-1], 'attrs'
   w = [pre_of(tree), f'root = {TREES[tree][0]}'] + list(setup_lines)
-  w += [f'n = {node_expr(addr)}'] + FLAG_WITNESS_HEAD + ['try:']
+  w += [f'n = {node_expr(addr)}',
+        f'm = {node_expr((str(pg.KeyPath(list(keys))), via))}',
+        f'f0 = m.{flag}', 'try:']
   sc, ind = scope_src(sealed_stack, acc_stack, '  ')
   w += sc + [f'{ind}{src}', 'except Exception: pass',
-             'live = [*map(id, W(root))]',
-             'assert all(F(v) == f for v, f in zip(keep, b) if id(v) in live)'
-             ", 'protection flag changed'"]
+             'assert any(x is m or getattr(x, "sym_init_args", 0) is m '
+             'for x in root.sym_descendants(include_self=True))',
+             f"assert m.{flag} == f0, '{flag} changed'"]
   return '\n'.join(w)
 
 
@@ -665,6 +664,12 @@ def witness(tree, setup_lines, sealed_stack, acc_stack, addr, src, expect):
   if tree in ('k-functor', 'k-subfunctor'):
     state = ('(pg.to_json(root), sorted(root.h.specified_args), '
              'sorted(root.h.non_default_args), sorted(root.h.default_args))')
+  if expect == 'unchanged-ids':
+    # The change is not visible in the JSON form (a node was replaced by an
+    # equal one): node identities are part of "exactly as it was".
+    expect = 'unchanged'
+    w += ['keep = root.sym_descendants()']
+    state = f'({state}, [*map(id, root.sym_descendants())])'
   w += [f'n = {node_expr(addr)}', f'S = lambda: {state}', 'before = S()',
         'err = None', 'try:']
   sc, ind = scope_src(sealed_stack, acc_stack, '  ')
@@ -778,6 +783,8 @@ def _attempt(rec, tree, root, setup_lines, sealed_stack, acc_stack, addr, kind,
       case_id = f'{name}|{mode}+refused-but-modified'
   msg = ''
   if not ok:
+    if expect == 'unchanged' and after[0] == before[0]:
+      expect = 'unchanged-ids'
     msg = (f'cfg={cfg} at={addr} op={src!r}: err={err!r} unchanged={unchanged} '
            f'would_change={would_change} ref={ref[0]}')
   rec.case(case_id, key, ok, msg,
@@ -795,7 +802,7 @@ def _attempt(rec, tree, root, setup_lines, sealed_stack, acc_stack, addr, kind,
                f'cfg={cfg} at={addr} op={src!r}: err={err!r} flags changed '
                f'(path, flag, before, after): {bad[:3]}',
                flag_witness(tree, setup_lines, sealed_stack, acc_stack, addr,
-                            src) if bad else '')
+                            src, bad[0]) if bad else '')
   del keep_alive
   rec.case('scope-restored-after-op', key, scopes_clean,
            'scope flags leaked after leaving the with-blocks',
